@@ -19,6 +19,7 @@ import (
 // Issues are derived from markers in the script text:
 //
 //	SC<4 digits>   shellcheck prints one issue with that code at the marker's line/column in stdin
+//	               (SC1xxx: at line 1, column 1 of stdin - a problem of the script as a whole)
 //	PF<2 digits>   pyflakes prints "<stdin>:L:C: marker PFnn"
 //	PFSYN          pyflakes prints a multi-line syntax error (one issue)
 //	PFCRLF         pyflakes terminates that line with \r\n
@@ -59,7 +60,11 @@ func ScanIssues(tool, stdin string) []ToolIssue {
 			if (tool == "shellcheck") != strings.HasPrefix(m, "SC") {
 				continue
 			}
-			out = append(out, ToolIssue{Tool: tool, Code: m, Line: li + 1, Col: loc[0] + 1})
+			is := ToolIssue{Tool: tool, Code: m, Line: li + 1, Col: loc[0] + 1}
+			if strings.HasPrefix(m, "SC1") {
+				is.Line, is.Col = 1, 1 // see Run: SC1xxx is reported at the start of the input
+			}
+			out = append(out, is)
 		}
 	}
 	return out
@@ -144,6 +149,10 @@ func (t *Tools) Run(argv []string, stdin string) kern.ToolResult {
 		for _, is := range issues {
 			var n int
 			fmt.Sscanf(is.Code, "SC%d", &n)
+			if n >= 1000 && n < 2000 {
+				// SC1xxx: problems of the script as a whole, located at the very start of the input
+				is.Line, is.Col = 1, 1
+			}
 			arr = append(arr, js{"-", is.Line, is.Line, is.Col, is.Col + 6, "warning", n, "marker issue " + is.Code + " checked as " + shellArg(argv) + "."})
 		}
 		stdout, _ = json.Marshal(arr)
